@@ -1298,7 +1298,7 @@ func (ft *ftrans) selector(c *ast.SelectorExpr, e env, pre *[]prelude) val {
 							failf("field %s of %s is left out of the translated structure", nm.Name, tp)
 						}
 						anyFile := p.fileOf(st)
-						return val{s: "(" + atom(x.s) + "." + nm.Name + ")", t: ft.t.structOf(tp).fieldType(nm.Name, ft.t.typeOf(p, anyFile, fl.Type))}
+						return val{s: "(" + atom(x.s) + "." + lf(nm.Name) + ")", t: ft.t.structOf(tp).fieldType(nm.Name, ft.t.typeOf(p, anyFile, fl.Type))}
 					}
 				}
 			}
@@ -1330,7 +1330,7 @@ func (ft *ftrans) selector(c *ast.SelectorExpr, e env, pre *[]prelude) val {
 				// the embedded field itself, named
 				for _, fl := range st.Fields.List {
 					if len(fl.Names) == 0 && embeddedName(fl.Type) == c.Sel.Name && !sc.leftOut(c.Sel.Name) {
-						return val{s: "(" + atom(x.s) + "." + c.Sel.Name + ")", t: sc.fieldType(c.Sel.Name, ft.t.typeOf(p, p.fileOf(st), fl.Type))}
+						return val{s: "(" + atom(x.s) + "." + lf(c.Sel.Name) + ")", t: sc.fieldType(c.Sel.Name, ft.t.typeOf(p, p.fileOf(st), fl.Type))}
 					}
 				}
 			}
@@ -2116,7 +2116,7 @@ func (ft *ftrans) zero(tp string) string {
 				if sc.leftOut(nm.Name) {
 					continue
 				}
-				fs = append(fs, nm.Name+" := "+ft.zero(sc.fieldType(nm.Name, ft.t.typeOf(p, file, fl.Type))))
+				fs = append(fs, lf(nm.Name)+" := "+ft.zero(sc.fieldType(nm.Name, ft.t.typeOf(p, file, fl.Type))))
 			}
 		}
 		return "({ " + strings.Join(fs, ", ") + " } : " + ft.t.leanType(tp) + ")"
@@ -2204,7 +2204,7 @@ func (ft *ftrans) block(stmts []ast.Stmt, e env, k cont) node {
 			var pre []prelude
 			kt, _, _ := mapParts(ft.t.under(m.t))
 			key := ft.coerce(kt, ft.expr(dc.Args[1], e, &pre))
-			return ft.wrap(pre, nLet{name: b.lean, val: "{ " + b.lean + " with " + field + " := Gen.Rt.Map.erase " + atom(m.s) + " " + atom(key.s) + " }", body: rest(e)})
+			return ft.wrap(pre, nLet{name: b.lean, val: "{ " + b.lean + " with " + lf(field) + " := Gen.Rt.Map.erase " + atom(m.s) + " " + atom(key.s) + " }", body: rest(e)})
 		}
 		if n := ft.updateCall(s.X, e, rest); n != nil {
 			return n
@@ -2931,7 +2931,7 @@ func (ft *ftrans) assign(s *ast.AssignStmt, e env, k cont) node {
 		v = ft.coerce(vt, v)
 		n := ft.tmp()
 		pre = append(pre, prelude{n, "Gen.Rt.Map.insert? " + atom(m.s) + " " + atom(key.s) + " " + atom(v.s)})
-		return ft.wrap(pre, nLet{name: b.lean, val: "{ " + b.lean + " with " + field + " := " + n + " }", body: k(e)})
+		return ft.wrap(pre, nLet{name: b.lean, val: "{ " + b.lean + " with " + lf(field) + " := " + n + " }", body: k(e)})
 	}
 	// x.f = v: the struct variable is rebound to its updated value
 	if sel, ok := s.Lhs[0].(*ast.SelectorExpr); ok && len(s.Lhs) == 1 && s.Tok == token.ASSIGN {
@@ -2949,7 +2949,7 @@ func (ft *ftrans) assign(s *ast.AssignStmt, e env, k cont) node {
 			failf("assignment of a multi-valued call to a field")
 		}
 		v = ft.coerce(cur.t, v)
-		return ft.wrap(pre, nLet{name: b.lean, val: "{ " + b.lean + " with " + sel.Sel.Name + " := " + v.s + " }", body: k(e)})
+		return ft.wrap(pre, nLet{name: b.lean, val: "{ " + b.lean + " with " + lf(sel.Sel.Name) + " := " + v.s + " }", body: k(e)})
 	}
 	v := ft.expr(s.Rhs[0], e, &pre)
 	if v.multi != nil {
@@ -4122,10 +4122,7 @@ func (t *translator) emitStruct(sc *StructCfg) (txt string, errmsg string) {
 				continue
 			}
 			name := nm.Name
-			if leanKeywords[name] {
-				failf("field %s has the name of a Lean keyword", name)
-			}
-			fields = append(fields, "  "+name+" : "+t.leanType(sc.fieldType(name, t.typeOf(p, file, fl.Type))))
+			fields = append(fields, "  "+lf(name)+" : "+t.leanType(sc.fieldType(name, t.typeOf(p, file, fl.Type))))
 		}
 	}
 	fmt.Fprintf(&b, "/-- `%s` type `%s`", pkgLabel(sc.Pkg), sc.Go)
@@ -4346,7 +4343,7 @@ func (ft *ftrans) structLit(c *ast.CompositeLit, e env, pre *[]prelude) (val, bo
 			}
 			ftp := sc.fieldType(nm.Name, ft.t.typeOf(p, file, fl.Type))
 			if !has {
-				fs = append(fs, nm.Name+" := "+ft.zero(ftp))
+				fs = append(fs, lf(nm.Name)+" := "+ft.zero(ftp))
 				continue
 			}
 			v := ft.expr(x, e, pre)
@@ -4354,7 +4351,7 @@ func (ft *ftrans) structLit(c *ast.CompositeLit, e env, pre *[]prelude) (val, bo
 				failf("a multi-valued call as a field of a struct literal")
 			}
 			v = ft.coerce(ftp, v)
-			fs = append(fs, nm.Name+" := "+v.s)
+			fs = append(fs, lf(nm.Name)+" := "+v.s)
 		}
 	}
 	for k := range given {
@@ -4374,4 +4371,12 @@ func (ft *ftrans) typeOfTypeExpr(x ast.Expr) (tp string) {
 		}
 	}()
 	return ft.t.typeOf(ft.f.pkg, ft.f.file, x)
+}
+
+// lf: a field name as a Lean identifier (a keyword is quoted: «private»)
+func lf(name string) string {
+	if leanKeywords[name] {
+		return "«" + name + "»"
+	}
+	return name
 }
